@@ -287,6 +287,10 @@ def recvEmp (t : Topo) (s : State) (p e : Nat) (emits : List (Dest × Msg)) (fai
   match s.outbox e with
   | [] =>
     if s.alive e && s.upOpen e then none           -- nothing readable
+    else if fails then
+      -- `recv` raised something other than `(EOFError, ConnectionResetError)` (`ConnExc.hard`):
+      -- the `except Exception` path, no `handle_disconnect`
+      some (systemError t s p)
     else if p = 0 && !t.attached then
       -- DetachedServer.handle_disconnect: unregister, close, handle_shutdown; then
       -- `self.clients.pop(conn)` raises KeyError -> handle_system_error (no clients left)
@@ -321,6 +325,7 @@ def recvUp (t : Topo) (s : State) (n : Nat) (emits : List (Dest × Msg)) (fails 
   match s.inbox n with
   | [] =>
     if s.alive (t.parent n) && s.downOpen n then none
+    else if fails then some (systemError t s n)     -- a `ConnExc.hard` class: `except Exception` path
     else
       -- Manager.handle_disconnect (fix 856c0e9): unregister + close upstream, and losing
       -- the boss shuts the manager down (the SHUTDOWN it tries to send upstream fails silently)
@@ -472,6 +477,78 @@ def run (t : Topo) : State → List Label → Option State
   | s, l :: ls => match step t s l with
     | none => none
     | some s' => run t s' ls
+
+/-! ### the exception family of a lost connection
+
+`multiprocessing.connection.Connection.recv()` / `.send()` fail in several ways when the peer is
+gone; which one depends on OS details (FIN vs RST, unread data in the dead peer's socket, a
+frame cut in the middle, who closed which handle).  The model has ONE event "the connection is
+lost" per reader (the `[]` branch of `recvEmp` / `recvUp` / `wrecv`, `eof` of the client loops);
+`react` transcribes which `except` clause of the real code catches which class at which site, and
+the `fails` flag of `recvEmp` / `recvUp` on a lost connection is `ConnExc.hard` of the class. -/
+
+/-- the documented failure classes of a connection whose peer is gone -/
+inductive ConnExc where
+  | eof           -- EOFError: end of stream after the buffered data (FIN)
+  | reset         -- ConnectionResetError: the peer died with unread data in its socket (RST)
+  | pipe          -- BrokenPipeError (EPIPE)
+  | aborted       -- ConnectionAbortedError
+  | closedHandle  -- OSError('handle is closed')
+  | truncated     -- OSError('got end of file during message'): a frame cut by the death of the writer
+deriving DecidableEq, Repr
+
+def ConnExc.all : List ConnExc := [.eof, .reset, .pipe, .aborted, .closedHandle, .truncated]
+
+/-- the places where runtime code touches a connection after start-up -/
+inductive Site where
+  | runRecv           -- ServerBase.run: `conn.recv()` (employee, upstream and client connections)
+  | workerRecv        -- Worker.recv_incoming: `self._conn.recv()`
+  | clientRecv        -- Compiler._recv_handle_log_error / _recv_log_error_until_empty (under _send / _send_recv)
+  | clientSend        -- Compiler._send / _send_recv: `self.conn.send`
+  | outgoingSend      -- ServerBase.send_outgoing
+  | shutdownSend      -- RuntimeEmployee.initiate_shutdown
+  | managerUpSend     -- Manager.handle_shutdown / Manager.handle_system_error: `self.upstream.send`
+  | unknownTaskSend   -- DetachedServer.handle_request: ERROR 'Unknown task.'
+  | workerSend        -- Worker main thread: WAITING / RESULT / SUBMIT / ... and the ERROR of `_loop`
+  | sysErrClientSend  -- DetachedServer.handle_system_error: `client.send` (not guarded)
+deriving DecidableEq, Repr
+
+def Site.all : List Site :=
+  [.runRecv, .workerRecv, .clientRecv, .clientSend, .outgoingSend, .shutdownSend, .managerUpSend,
+   .unknownTaskSend, .workerSend, .sysErrClientSend]
+
+inductive Reaction where
+  | disconnect    -- `handle_disconnect(conn)`: the soft branch of the model's lost-connection event
+  | systemError   -- `except Exception`: handle_system_error, then `finally: handle_shutdown`
+  | selfKill      -- the worker process ends
+  | raises        -- the client call raises RuntimeError and drops the connection
+  | dropped       -- the message is dropped, the node carries on (it reacts to its own EOF)
+  | shutdownThenEscapes  -- the node shuts down (`finally`), then the exception leaves `run`
+deriving DecidableEq, Repr
+
+/-- which `except` clause catches which class where -/
+def react : Site → ConnExc → Reaction
+  | .runRecv, .eof => .disconnect            -- `except (EOFError, ConnectionResetError)`
+  | .runRecv, .reset => .disconnect
+  | .runRecv, _ => .systemError              -- `except Exception`
+  | .workerRecv, _ => .selfKill              -- `except Exception: os.kill(os.getpid(), SIGKILL)`
+  | .clientRecv, _ => .raises                -- `except Exception as e: ... raise RuntimeError`
+  | .clientSend, _ => .raises
+  | .outgoingSend, _ => .dropped             -- `except (EOFError, OSError): continue`
+  | .shutdownSend, _ => .dropped             -- `except Exception: pass`, per employee
+  | .managerUpSend, _ => .dropped            -- `except Exception: pass`
+  | .unknownTaskSend, _ => .dropped          -- `except (EOFError, OSError): pass`
+  | .workerSend, _ => .selfKill              -- `_loop`: `except Exception: self._running = False ...`
+  | .sysErrClientSend, _ => .shutdownThenEscapes
+
+/-- the class is NOT caught by `except (EOFError, ConnectionResetError)` in `ServerBase.run` -/
+def ConnExc.hard (x : ConnExc) : Bool := react .runRecv x == .systemError
+
+/-- a server / manager main loop reads the lost connection of employee `e`; `recv` raises `x` -/
+def Label.lostEmp (p e : Nat) (x : ConnExc) : Label := .recvEmp p e [] x.hard
+
+/-- a manager main loop reads its lost upstream connection; `recv` raises `x` -/
+def Label.lostUp (n : Nat) (x : ConnExc) : Label := .recvUp n [] x.hard
 
 /-! ### the reaction path and its potential -/
 
